@@ -188,6 +188,7 @@ type vPCCase struct {
 	Xor       byte   `json:"xor"`
 	Packets   int    `json:"packets"`
 	Region    string `json:"region"`
+	Big       int    `json:"big,omitempty"` // != 0: one packet whose body is Big bytes (largest sizes the writer accepts)
 }
 
 var vChunkSets = [][]int{{1}, {2}, {3}, {7}, {16}, {17}, {1, 2, 3, 7, 16, 17}, {4096}, {1, 4096}}
@@ -245,9 +246,19 @@ func vRunPC(cs *vPCCase) (verdict string, detail string) {
 	// sender history
 	var sent []vPkt
 	n := 1 + r.Intn(9)
+	if cs.Big != 0 {
+		n = 1
+	}
 	cs.Packets = n
 	for i := 0; i < n; i++ {
 		var sz int
+		if cs.Big != 0 {
+			b := make([]byte, cs.Big)
+			r.Read(b[:4096])
+			copy(b[len(b)-4096:], b[:4096])
+			sent = append(sent, vPkt{Tip: 0x10000000 + uint32(r.Intn(1<<24)), Body: b})
+			continue
+		}
 		switch r.Intn(10) {
 		case 0:
 			sz = 0
@@ -312,6 +323,9 @@ func vRunPC(cs *vPCCase) (verdict string, detail string) {
 			}
 		}
 		if err != nil {
+			if cs.Big != 0 {
+				return "big-rejected-by-writer", err.Error() // the writer may refuse a size; what it accepts must be readable
+			}
 			return "write-failed", err.Error()
 		}
 		boundaries = append(boundaries, c2s.total())
@@ -447,6 +461,17 @@ func TestVerifC35(t *testing.T) {
 		}(w)
 	}
 	wg.Wait()
+	// boundary: the largest packets the writer accepts must be read back identically
+	for i, big := range []int{16<<20 - 17, 16<<20 - 20, 16<<20 - 16} {
+		for _, key := range []bool{false, true} {
+			cs := &vPCCase{Seed: seed*31 + int64(i), Handshake: true, Key: key, ChunkMode: 7, Protocol: uint32(2 - i%2*2), Big: big} // protocol 2, 0 (sizes multiple of 4), 2
+			v, d := vRunPC(cs)
+			st.add("max_size_packets_"+v, 1)
+			if v == "VIOLATION" || v == "handshake-failed" {
+				st.violation("packetconn", "max-size-packet", fmt.Sprintf("packet with a %d-byte body: %s", big, d), cs)
+			}
+		}
+	}
 	st.done("packetconn")
 }
 
